@@ -646,6 +646,7 @@ fn step(cx: &mut Ctx, slots: &mut [Slot], op: &Op, twin: bool) {
                 feed(&mut s.fresh, *form, bytes);
             }
             s.model.push_bytes(bytes);
+            cx.probe_n("sim.bytes_really_fed", bytes.len() as u64);
             s.forms |= 1 << (*form as u16);
             s.feeds += 1;
             if s.is_clone {
@@ -679,6 +680,7 @@ fn step(cx: &mut Ctx, slots: &mut [Slot], op: &Op, twin: bool) {
                 }
             }
             s.model.push_zeros(*n);
+            cx.probe_n("sim.bytes_virtually_skipped", *n);
             if *n >= 6 {
                 s.tail = vec![0; 6];
             } else {
@@ -796,7 +798,7 @@ fn fin_step(cx: &mut Ctx, s: &mut Slot, slot: u8, twin: bool) {
     }
     let pure_check: &'static str = if twin { "C12.finalize_pure" } else { "C03.finalize_pure" };
     if before != after {
-        cx.fail(pure_check, "finalize changed state", "Debug state differs before/after finalize*".to_string());
+        cx.fail(pure_check, "finalize_changed_state", "Debug state differs before/after finalize*".to_string());
     }
     // C03: the object fed by the history (without any declaration) vs the reference
     let (subject, subj_res): (&Generator, [Res; 6]) = if twin { (&s.nodecl, fin_all(&s.nodecl)) } else { (&s.g, ra.clone()) };
